@@ -325,7 +325,7 @@ def _worker(hname, cfgs, opts, tasks, results, widx, stop_flags=None, path_count
         out = {ci: st.to_json() for ci, st in stats.items()}
         results.put(("ok", widx, out, {
             "queries": E.n_queries, "feas": E.n_feas, "valid": E.n_valid, "unknown": E.n_unknown,
-            "solver_s": E.solver_s, "shortcuts": E.n_model_shortcuts}))
+            "solver_s": E.solver_s, "shortcuts": E.n_model_shortcuts, "concretize_cuts": getattr(E, "n_concretize_cuts", 0)}))
     except BaseException as ex:  # noqa
         results.put(("error", widx, "%s: %s\n%s" % (type(ex).__name__, ex, traceback.format_exc()), None))
         # drain so that join() can finish
@@ -486,10 +486,10 @@ def run_harness(hname, tier="quick", seed=0, only=None):
 
     # ---- merge
     merged = {}
-    eng_stats = {"queries": 0, "feas": 0, "valid": 0, "unknown": 0, "solver_s": 0.0, "shortcuts": 0}
+    eng_stats = {"queries": 0, "feas": 0, "valid": 0, "unknown": 0, "solver_s": 0.0, "shortcuts": 0, "concretize_cuts": 0}
     for out, es in outs:
         for k in eng_stats:
-            eng_stats[k] += es[k]
+            eng_stats[k] += es.get(k, 0)
         for ci, st in out.items():
             m = merged.setdefault(ci, None)
             if m is None:
@@ -668,6 +668,7 @@ def run_harness(hname, tier="quick", seed=0, only=None):
                   "path_timeouts_inconclusive": hang_incon, "prefixes_dropped_at_deadline_or_path_budget": dropped,
                   "configurations_cut_at_path_budget": {"budget_paths_per_configuration": opts.get("path_budget"), "names": cut_cfgs}}
     incomplete["configurations_given_up_after_a_path_exceeded_the_cpu_limit"] = {"limit_s": opts["path_wall_s"], "names": [cfgs[ci]["name"] for ci, m in sorted(merged.items()) if m["counters"].get("config_given_up_after_path_timeout", 0)]}
+    incomplete["enumerations_of_an_unbounded_integer_cut_after_12_values"] = eng_stats["concretize_cuts"]
     incomplete["max_cpu_s_of_one_path"] = max([m["counters"].get("max_path_cpu_ms", 0) for m in merged.values()] or [0]) / 1000.0
     samples = []
     for ci in sorted(merged):
